@@ -195,7 +195,7 @@ def run(ctx):
             _classify(ctx, mode, [mode], env, r, dist, distinct)
             if len(samples) < 1 and mode == "futex" and 60 < len(r["lines"]) < 140:
                 samples.append(r["lines"][:80])
-            if len(ctx.failing) + len(ctx.broken) > 8:
+            if len(ctx.failing) > 12:
                 break
     ctx.cov["distribution"] = dist
     ctx.cov["distinct_nontrivial"] = len(distinct)
